@@ -3,9 +3,11 @@
 //! answers. Oracle failures (the property's own predicate evaluated on the implementation alone)
 //! are reported separately from model disagreements.
 
+mod append;
 mod catalogue;
 mod derived;
 mod modeled;
+mod probe;
 mod rng;
 mod stacks;
 mod streams;
